@@ -667,10 +667,22 @@ impl<'tcx> Dumper<'tcx> {
     fn dump_crate(&mut self) -> Json {
         let tcx = self.tcx;
         let mut fns = vec![];
+        let mut statics = vec![];
         for ldid in tcx.hir_body_owners() {
             let did = ldid.to_def_id();
             let kind = tcx.def_kind(did);
             let kind_s = format!("{:?}", kind);
+            if matches!(kind, DefKind::Static { .. }) {
+                // every static of the crate (also those a macro such as thread_local! generates): process-global state
+                let t = tcx.type_of(did).instantiate_identity().skip_norm_wip();
+                statics.push(obj(vec![
+                    ("path", s(self.upath(did))),
+                    ("ty", s(format!("{}", t))),
+                    ("mutable", Json::Bool(tcx.is_mutable_static(did))),
+                    ("thread_local", Json::Bool(tcx.is_thread_local_static(did))),
+                    ("span", self.span(tcx.def_span(did))),
+                ]));
+            }
             let is_const = matches!(kind, DefKind::Const { .. } | DefKind::AssocConst { .. } | DefKind::Static { .. });
             let has_mir = match kind {
                 DefKind::Fn | DefKind::AssocFn | DefKind::Closure => true,
@@ -788,6 +800,7 @@ impl<'tcx> Dumper<'tcx> {
             ("fns", Json::Arr(fns)),
             ("adts", Json::Obj(adts)),
             ("unsafe_sites", Json::Arr(unsafe_sites)),
+            ("statics", Json::Arr(statics)),
         ])
     }
 }
